@@ -199,23 +199,33 @@ Fixpoint ins_item (x : bytes * bytes * Z) (l : list (bytes * bytes * Z)) :=
   end.
 Definition sort_items (l : list (bytes * bytes * Z)) := fold_right ins_item [] l.
 
-(* GetMulti / Get: items found, in request order (the harness sorts VALUE blocks of both sides) *)
-Fixpoint get_many (st : St) (keys : list bytes) (a : acct) (single : bool) : St * outcome * list (bytes * bytes * Z) * acct :=
+(* GetMulti / Get: items found, in request order (the harness sorts VALUE blocks of both sides).  The items live in a
+   map keyed by the key.  [dedup] = GetMulti skips a key it has already fetched (Consts.getmulti_skips_duplicates,
+   translated from gobeansdb/store.go: the repair of finding F23); without it a repeated key is fetched and charged
+   again and the earlier item, replaced in the map, is never released. *)
+Definition has_key (k : bytes) (items : list (bytes * bytes * Z)) : bool := existsb (fun it => beq (fst (fst it)) k) items.
+
+Fixpoint get_many_gen (dedup : bool) (st : St) (keys : list bytes) (a : acct) (single : bool) (seen : list bytes)
+  : St * outcome * list (bytes * bytes * Z) * acct :=
   match keys with
   | [] => (st, OReply (RValues false []), [], a)
   | k :: t =>
+    if dedup && existsb (beq k) seen then get_many_gen dedup st t a single seen
+    else
     let '(st1, g) := st_get st k in
     match g with
     | SGPanic => (st1, OPanic, [], a)
     | SGErr msg => if single then (st1, OReply (RStatus t_SERVER_ERROR msg), [], a)
-                   else get_many st1 t a single
-    | SGMiss => get_many st1 t a single
+                   else get_many_gen dedup st1 t a single seen
+    | SGMiss => get_many_gen dedup st1 t a single seen
     | SGItem body flag charged =>
         let a1 := if charged then add_get a 1 (Z.of_N (lenN body)) else a in
-        let '(st2, o, items, a2) := get_many st1 t a1 single in
-        (st2, o, (k, body, flag) :: items, a2)
+        let '(st2, o, items, a2) := get_many_gen dedup st1 t a1 single (k :: seen) in
+        (* a later occurrence of the key replaced this item in the map *)
+        (st2, o, if has_key k items then items else (k, body, flag) :: items, a2)
     end
   end.
+Definition get_many (st : St) (keys : list bytes) (a : acct) (single : bool) := get_many_gen getmulti_skips_duplicates st keys a single [].
 
 (* Request.Process + the buffer hand-over rules; returns the outcome and the accounting *)
 Definition process (pc : pcfg) (st : St) (q : request) (a : acct) : St * outcome * acct :=
